@@ -4,13 +4,16 @@
 cd /verif
 out=${2:-/tmp/seedown.log}
 for id in $1; do
-  git -C /repo diff --quiet || { echo "/repo dirty" >> $out; exit 2; }
+ (
+  flock 9
+  git -C /repo diff --quiet || { echo "/repo dirty" >> $out; exit 0; }
   prop=$(jq -r .breaks_property /verif/seeded/$id/meta.json)
-  git -C /repo apply /verif/seeded/$id/patch.diff || { echo "$id: patch does not apply" >> $out; continue; }
+  git -C /repo apply /verif/seeded/$id/patch.diff || { echo "$id: patch does not apply" >> $out; exit 0; }
   ./check $prop quick > /tmp/seedown_$id.log 2>&1
   code=$?
   git -C /repo checkout -- .
   if [ $code -eq 1 ]; then echo "$id: $prop detects ($(grep -c '^VIOLATION' /tmp/seedown_$id.log) replay files)" >> $out
   else echo "$id: $prop exit $code" >> $out; fi
+ ) 9>/tmp/repo.lock
 done
 echo done >> $out
